@@ -6,13 +6,14 @@
 # it only applies with a 3-way merge.
 set -u
 D="$1"; NAME="${2:-$(basename "$D")}"
-WT=/tmp/verif-cs/wt
-mkdir -p /tmp/verif-cs
+CS="${VERIF_CS:-/tmp/verif-cs}"
+WT=$CS/wt
+mkdir -p "$CS"
 if [ ! -d "$WT" ]; then git -C /repo worktree add -q --detach "$WT" HEAD || exit 2; fi
 git -C "$WT" checkout -q -- . && git -C "$WT" clean -qfd -e target && git -C "$WT" checkout -q --detach "$(git -C /repo rev-parse HEAD)" || exit 2
 mkdir -p "$WT/tests"; cp "$D/demo.rs" "$WT/tests/demo.rs"
 cd "$WT"
-pristine_demo=fail; cargo test --offline --test demo >/tmp/verif-cs/p.log 2>&1 && pristine_demo=pass
+pristine_demo=fail; cargo test --offline --test demo >$CS/p.log 2>&1 && pristine_demo=pass
 applies=clean
 if ! git apply --check "$D/patch.diff" 2>/dev/null; then
   if git apply -3 "$D/patch.diff" >/dev/null 2>&1; then
@@ -24,9 +25,9 @@ fi
 lib=skip; mut_demo=skip
 if [ "$applies" != "no" ]; then
   git apply "$D/patch.diff"
-  lib=fail; cargo test --offline --lib >/tmp/verif-cs/l.log 2>&1 && lib=pass
-  mut_demo=pass; cargo test --offline --test demo >/tmp/verif-cs/m.log 2>&1 || mut_demo=fail
-  grep -q "error\[E\|could not compile" /tmp/verif-cs/m.log && mut_demo=compile-error
+  lib=fail; cargo test --offline --lib >$CS/l.log 2>&1 && lib=pass
+  mut_demo=pass; cargo test --offline --test demo >$CS/m.log 2>&1 || mut_demo=fail
+  grep -q "error\[E\|could not compile" $CS/m.log && mut_demo=compile-error
 fi
 git checkout -q -- . ; rm -rf tests
 echo "{\"name\":\"$NAME\",\"head\":\"$(git -C /repo rev-parse --short HEAD)\",\"applies\":\"$applies\",\"demo_on_pristine\":\"$pristine_demo\",\"lib_tests_with_patch\":\"$lib\",\"demo_with_patch\":\"$mut_demo\"}"
